@@ -162,6 +162,7 @@ def build_reference(repo: str) -> dict:
     out = {}
     for p in sorted((pathlib.Path(repo) / "stepup" / "core").glob("*.py")):
         tree = ast.parse(p.read_text())
+        strip_local_annotations(tree)
         inline_return_temps(tree)
         for q, fn in top_level_functions(tree):
             order = renamable_names(fn)
@@ -267,8 +268,43 @@ def inline_return_temps(tree: ast.Module) -> int:
     return n
 
 
+class _LocalAnnotationStripper(ast.NodeTransformer):
+    def __init__(self):
+        self.depth = 0
+        self.n = 0
+
+    def visit_FunctionDef(self, node):
+        self.depth += 1
+        self.generic_visit(node)
+        self.depth -= 1
+        return node
+
+    visit_AsyncFunctionDef = visit_FunctionDef
+
+    def visit_ClassDef(self, node):
+        saved, self.depth = self.depth, 0
+        self.generic_visit(node)
+        self.depth = saved
+        return node
+
+    def visit_AnnAssign(self, node):
+        if self.depth and node.value is not None and isinstance(node.target, ast.Name):
+            self.n += 1
+            return ast.copy_location(ast.Assign(targets=[node.target], value=node.value), node)
+        return node
+
+
+def strip_local_annotations(tree: ast.Module) -> int:
+    """`x: T = v` in a function body is read as `x = v` (an annotation of a local has no run-time meaning)."""
+    t = _LocalAnnotationStripper()
+    t.visit(tree)
+    ast.fix_missing_locations(tree)
+    return t.n
+
+
 def canonicalise_module(modname: str, tree: ast.Module) -> int:
     """Rename locals of alpha-equivalent functions to the reference names. Returns #functions renamed."""
+    strip_local_annotations(tree)
     inline_return_temps(tree)
     ref = load_reference()
     n = 0
